@@ -213,11 +213,13 @@ def run(tier):
         elif a["same"]:
             n_bisim += 1
             chk.count(str(a.get("validator", "V3")) + ":same-law-for-all-n:" + lab)
-        elif a.get("validator") == "V3C":
+        elif a.get("validator") == "V3C" or (a.get("why") or {}).get("kind") == "type-violated":
             # V3C is sound but not complete: it compares the atom tables of a step index by index, so a pass that rewrites a draw
             # (Normal(m, 1/4) -> m + (1/2)*Normal(0, 1)) is answered "not same" although the law is preserved.  The verdict is
             # therefore decided by exact moments of the two snapshots (all monomials up to degree 3 plus 4th powers, n <= 2).
-            chk.count("V3C:not-same:decided-by-exact-moments:" + lab)
+            # (the same holds for V3's verdict `type-violated`: the validator starts from every combination of typed values, also
+            # unreachable ones, e.g. two variables on different points of a finite orbit; the types need only hold on reachable states)
+            chk.count(str(a.get("validator", "V3")) + ":not-same:decided-by-exact-moments:" + lab)
             inconclusive.append((ji, label, a, vreqs[vi]))
         else:
             rec = {"case": c, "options": o, "pass": label, "kind": "one-step-bisimulation-fails", "detail": a.get("why")}
